@@ -34,6 +34,12 @@ func (c *Client) runRaw() {
 				}
 				q += "sid=" + c.sid
 			}
+			if op.SidOf != "" {
+				if q != "" {
+					q += "&"
+				}
+				q += "sid=" + c.w.sidOf(op.SidOf)
+			}
 			path := op.Path
 			if path == "" {
 				path = c.path()
@@ -44,7 +50,7 @@ func (c *Client) runRaw() {
 			}
 			do := func() {
 				r := c.w.serve(c.w.H, c.name, rs)
-				c.w.recx(Ev{Sess: c.name, Kind: "c-raw-resp", S: clip(string(r.Body), 120), N: int64(r.Status), P: []string{op.Method, strconv.Itoa(i)}})
+				c.w.recx(Ev{Sess: c.name, Kind: "c-raw-resp", S: clip(string(r.Body), 200), N: int64(r.Status), P: []string{op.Method, strconv.Itoa(i), byApp(r), strconv.Itoa(r.ID)}})
 				c.learnSid(r)
 			}
 			if op.Async {
@@ -52,7 +58,7 @@ func (c *Client) runRaw() {
 				pending = append(pending, r)
 				c.spawn("rawreq", func() {
 					c.w.serveReq(c.w.H, req, r)
-					c.w.recx(Ev{Sess: c.name, Kind: "c-raw-resp", S: clip(string(r.Body), 120), N: int64(r.Status), P: []string{op.Method, strconv.Itoa(i)}})
+					c.w.recx(Ev{Sess: c.name, Kind: "c-raw-resp", S: clip(string(r.Body), 200), N: int64(r.Status), P: []string{op.Method, strconv.Itoa(i), byApp(r), strconv.Itoa(r.ID)}})
 					c.learnSid(r)
 				})
 				simrt.Yield(-5)
@@ -70,7 +76,17 @@ func (c *Client) runRaw() {
 			if op.UseSid {
 				q += "&sid=" + c.sid
 			}
-			s, r := c.openWS(q)
+			if op.SidOf != "" {
+				q += "&sid=" + c.w.sidOf(op.SidOf)
+			}
+			hx := map[string]string{}
+			for k, v := range op.Hdr {
+				hx[k] = v
+			}
+			if op.Path != "" {
+				hx[":path"] = op.Path
+			}
+			s, r := c.openWS(q, hx)
 			st := int64(101)
 			if s == nil {
 				st = int64(r.Status)
@@ -92,7 +108,11 @@ func (c *Client) runRaw() {
 					}
 				})
 			}
-			c.rec("c-raw-ws-open", q, st)
+			body := ""
+			if r != nil {
+				body = string(r.Body)
+			}
+			c.w.recx(Ev{Sess: c.name, Kind: "c-raw-ws-open", S: q, N: st, P: []string{"WS", strconv.Itoa(i), clip(body, 200)}})
 		case "wt-open":
 			s, r := c.openWTRaw(op.Bytes)
 			st := int64(200)
@@ -147,6 +167,22 @@ func (c *Client) runRaw() {
 		}
 	}
 	c.rec("c-raw-done", "", 0)
+}
+
+func byApp(r *Resp) string {
+	if r.Status == 418 && r.H.Get("X-App") == "1" {
+		return "app"
+	}
+	return "engine"
+}
+
+func (w *World) sidOf(alias string) string {
+	w.mu.Lock()
+	defer w.mu.Unlock()
+	if s := w.SockIDs[alias]; s != "" {
+		return s
+	}
+	return "NoSuchSessionAAAAAAAAAAA"
 }
 
 func (c *Client) learnSid(r *Resp) {
